@@ -242,13 +242,15 @@ def cfgkeys_case(tmp):
 
 def run(R):
     tie_error = None
-    try:
-        facts = gen_errmap.write_gen()
-    except gen_errmap.ExtractError as e:
-        facts = None
-        tie_error = str(e)
-    lean_ok = vlib.step_lean(R, PID)
+    facts = None
     exe = vlib.step_harness(R)
+    if exe is not None:
+        try:
+            # the tables of Gen/ErrMapGen.lean are derived from probes of the running code
+            facts = gen_errmap.write_gen(exe)
+        except gen_errmap.ExtractError as e:
+            tie_error = str(e)
+    lean_ok = vlib.step_lean(R, PID)
     if exe is None:
         R.violation("harness does not build against /repo (API used by the correspondence check changed)",
                     {"build_log": R.harness_log[-3000:]}, no_input=True)
@@ -357,7 +359,8 @@ def run(R):
         "distribution": dict((k, dict(sorted(v.items()))) for k, v in sorted(stats.items())),
         "samples": [hcases[len(h_corpus) + len(gen_errmap.pair_cases()) + len(gen_errmap.override_cases())],
                     dict(scases[-1], reqs=scases[-1]["reqs"][:3])],
-        "extracted_facts": facts if facts is not None else "extraction failed: " + str(tie_error),
+        "probed_facts": facts if facts is not None else "probing failed: " + str(tie_error),
+        "probe_cases": len(gen_errmap.probe_cases()),
         "exhaustive": False,
     })
     if not quick:
@@ -394,13 +397,14 @@ def run(R):
         R.violation(what, {"case": sc, "impl": si[0], "model": vlib.res_of(sm[0]), "kind": v2[0]},
                     no_input=(v2[0] in ("impl-vs-model", "driver")))
     if tie_error:
-        R.violation("the facts of the error translators can no longer be extracted from the source: " + tie_error,
+        R.violation("the behaviour of the error translators no longer fits the shape of the proved model (probes of "
+                    "the running code): " + tie_error,
                     {"extract_error": tie_error}, no_input=True)
     if not lean_ok:
         R.violation("theorems of Props/C12.lean no longer check (the regenerated tables differ from the model or a "
                     "proof broke): " + "; ".join(R.lean["failed"])[:600],
                     {"lean_log": R.lean["log"], "failed": R.lean["failed"], "theorems": R.lean.get("failed_theorems"),
-                     "extracted_facts": facts}, no_input=True)
+                     "probed_facts": facts}, no_input=True)
 
 
 def replay(R, path):
